@@ -262,6 +262,50 @@ theorem two_pow_le_of_le_trailingOnes {n h : Nat} (hh : h ≤ trailingOnes n) : 
   (leftmost_coord hh).1
 
 
+/-! ### The coordinate theorem (restated in `Props/C07` as `peakMapHeight_coord`) -/
+
+theorem peakMapHeight_co (n h : Nat) (hh : h ≤ trailingOnes n) :
+    peakMapHeight (mmr n + h) = (n, h) := by
+  unfold peakMapHeight
+  by_cases hz : mmr n + h = 0
+  · have hn : n = 0 := by have := le_mmr n; omega
+    subst hn
+    have : h = 0 := by simpa [mmr, popcount] using hz
+    subst this
+    simp [mmr, popcount]
+  · rw [if_neg hz]
+    have hlt : n < 2^(bitLen (mmr n + h)) := by
+      have := lt_two_pow_bitLen (mmr n + h)
+      have := le_mmr n
+      omega
+    have := greedy_spec (bitLen (mmr n + h)) n 0 h hlt (by simpa using hh)
+    simpa using this
+
+theorem coord_surj (pos : Nat) : ∃ n h, h ≤ trailingOnes n ∧ pos = mmr n + h := by
+  induction pos with
+  | zero => exact ⟨0, 0, by simp [trailingOnes], by simp [mmr, popcount]⟩
+  | succ p ih =>
+    obtain ⟨n, h, hh, hp⟩ := ih
+    by_cases hlt : h < trailingOnes n
+    · exact ⟨n, h+1, by omega, by omega⟩
+    · refine ⟨n+1, 0, by omega, ?_⟩
+      rw [mmr_succ]; omega
+
+theorem coord_inj {n h n' h' : Nat} (hh : h ≤ trailingOnes n) (hh' : h' ≤ trailingOnes n')
+    (e : mmr n + h = mmr n' + h') : n = n' ∧ h = h' := by
+  have a := peakMapHeight_co n h hh
+  have b := peakMapHeight_co n' h' hh'
+  rw [e] at a
+  rw [a] at b
+  exact ⟨by injection b, by injection b⟩
+
+theorem height_co (n h : Nat) (hh : h ≤ trailingOnes n) : height (mmr n + h) = h := by
+  simp [height, peakMapHeight_co n h hh]
+
+theorem peakMapHeight_leaf (n : Nat) : peakMapHeight (mmr n) = (n, 0) := by
+  have := peakMapHeight_co n 0 (Nat.zero_le _)
+  simpa using this
+
 /-! ### Ancestors: `up n j` is `n` with its low `j` bits set — the last leaf below the ancestor of
 height `j` of leaf `n` (or of any node `(n, h)` with `h ≤ j`). -/
 
